@@ -75,6 +75,46 @@ def run(ctx):
         ok = ok and B.equivalent(Gc, B.Not(G))
     ctx.ob("A1", WB, "SRAM", "ack: default 0, set under cyc & stb & (~ack | burst)", ok,
            "" if ok else f"{[(a.v, a.gtext()) for a in acks]}: a cycle is acknowledged twice / never / without a request", sets[0].line if sets else 0)
+    # burst wrap registers hold `x & adr_wrap_mask[bte]`: wide enough for the largest mask (a narrower start-offset register folds
+    # the start of a wrap-8 / wrap-16 burst modulo 4: the later beats hit the wrong words of the block)
+    from .. import pyconst
+    init_ = ctx.mod(WB).method("SRAM", "__init__")
+    loc_ = {}
+    for st_ in ast.walk(init_):
+        if isinstance(st_, ast.Assign) and len(st_.targets) == 1 and isinstance(st_.targets[0], ast.Name) and \
+                st_.targets[0].id in ("adr_wrap_mask", "adr_wrap_max"):
+            loc_[st_.targets[0].id] = st_.value
+    masks = None
+    mk = loc_.get("adr_wrap_mask")
+    if isinstance(mk, ast.Call) and norm(mk.func) == "Array" and len(mk.args) == 1:
+        mk = mk.args[0]
+    try:
+        masks = tuple(pyconst.Interp({}).ev(mk)) if mk is not None else None
+    except Exception:       # noqa
+        masks = None
+    ok = masks is not None and len(masks) == 4 and all(isinstance(v, int) for v in masks)
+    ctx.ob("A1", WB, "SRAM", "wrap masks are a literal table of four entries", ok, "" if ok else f"adr_wrap_mask = {norm(loc_.get('adr_wrap_mask')) if loc_.get('adr_wrap_mask') is not None else '?'}", init_)
+    if ok:
+        env_ = {"adr_wrap_mask": masks}
+        try:
+            if "adr_wrap_max" in loc_:
+                env_["adr_wrap_max"] = pyconst.Interp(dict(env_)).ev(loc_["adr_wrap_max"])
+        except Exception:   # noqa
+            pass
+        for reg_ in ("adr_counter_offset", "adr_offset_lsb"):
+            d_ = fx.decl.get(reg_)
+            nv = None
+            if d_:
+                class _NoArray(ast.NodeTransformer):        # Array(x) indexes like x
+                    def visit_Call(self, n_):
+                        self.generic_visit(n_)
+                        return n_.args[0] if norm(n_.func) == "Array" and len(n_.args) == 1 else n_
+                import copy as _copy
+                nv = q.signal_values(_NoArray().visit(_copy.deepcopy(d_[1])), env_)
+            ok_ = nv is not None and nv > max(masks)
+            ctx.ob("A1", WB, "SRAM", f"{reg_} holds every offset inside the largest wrap block", ok_,
+                   "" if ok_ else f"`{reg_} = {norm(d_[1]) if d_ else '?'}` holds {nv} values, the largest wrap mask is {max(masks):#b}: the "
+                                  f"start offset of a wrap-{max(masks) + 1} burst is truncated, later beats address the wrong words", d_[1] if d_ else init_)
     adr = fx.find(domain="comb", target="port.adr")
     base = [a for a in adr if not a.guards]
     ovr = [a for a in adr if a.guards]
